@@ -1,7 +1,7 @@
 (* Extraction of the C02 model: ExtrOcamlBasic only, no Extract Constant. *)
 Require Import ExtrOcamlBasic.
 From Coq Require Import QArith Qcanon.
-From SharkV Require Import C02Model C02BlkModel C02Q C02PstrfModel C02SemiModel C02UpdModel C02LUMatModel C02RlModel C02CgModel.
+From SharkV Require Import C02Model C02BlkModel C02Q C02PstrfModel C02SemiModel C02UpdModel C02LUMatModel C02RlModel C02CgModel C02SyevModel.
 Extraction "c02_model.ml" qc_ops qc_make qc_num qc_den trsv trsm potrf chol_solve_with chol_solve_m inv_tri unit_vec tab
   qc_abs potrf_blocked getrf lu_solve lu_solve_right lu_solve_full tabp
-  pstrf pstrf_full semi_decompose semi_solve_with semi_solve chol_update lu_solve_m potrf_blocked2 cg_vec cg_solve_v cg_col.
+  pstrf pstrf_full semi_decompose semi_solve_with semi_solve chol_update lu_solve_m potrf_blocked2 cg_vec cg_solve_v cg_col tred2 syev.
